@@ -5,6 +5,7 @@ package main
 import (
 	"fmt"
 	"strings"
+	"time"
 
 	criteria_concealment "github.com/Azbesciak/RealDecisionMaker/lib/logic/biases/criteria-concealment"
 	"github.com/Azbesciak/RealDecisionMaker/lib/model"
@@ -36,7 +37,9 @@ func init() {
 	props["C18"] = func(o *Out, r *Rng, n int, thorough bool) {
 		for c := 0; c < n; c++ {
 			o.Cases++
-			switch k := r.Intn(10); {
+			switch k := r.Intn(11); {
+			case k == 10:
+				c18NotUsedName(o, r, c)
 			case k < 2:
 				c18RefCrit(o, r, c)
 			case k < 6:
@@ -45,6 +48,50 @@ func init() {
 				c18Bias(o, r, c, "criteriaMixing", thorough)
 			}
 		}
+	}
+}
+
+// NotUsedName on adversarial id sets: user criteria that already carry generated names, gaps left by omitted
+// generated criteria, runs of taken numbers.  Called under a watchdog (a non-terminating search is a failure).
+var c18NameStuck bool
+
+func c18NotUsedName(o *Out, r *Rng, c int) {
+	if c18NameStuck {
+		return
+	}
+	base := []string{"__concealedCriterion__", "__c0+c1__", "x"}[r.Intn(3)]
+	pool := []string{base, base + "1", base + "2", base + "3", base + "4", base + "5", base + "x", "c0", "c1", base + "10", "y" + base}
+	var ids []string
+	for _, id := range pool {
+		if r.chance(0.45) {
+			ids = append(ids, id)
+		}
+	}
+	ids = r.shuffled(ids)
+	crit := make(model.Criteria, len(ids))
+	for i, id := range ids {
+		crit[i] = model.Criterion{Id: id, Type: model.Gain}
+	}
+	m := Meta{Case: c, Stage: "not-used-name", Input: J{"ids": ids, "base": base}, Key: "nun" + base + strings.Join(ids, ","), Trivial: len(ids) == 0}
+	done := make(chan string, 1)
+	go func() {
+		var name string
+		msg := recoverErr(func() { name = crit.NotUsedName(base) })
+		done <- name + msg
+	}()
+	select {
+	case name := <-done:
+		m.GoOut = name
+		o.Corr(m, L(A("not-used-name"), Strs(ids), Str(base)), okSX(Str(name)))
+		used := false
+		for _, id := range ids {
+			used = used || id == name
+		}
+		o.Oracle(m, !used && strings.HasPrefix(name, base), "the generated criterion name is in use or lacks the prefix")
+		o.count("not-used-name")
+	case <-time.After(3 * time.Second):
+		c18NameStuck = true
+		o.Oracle(m, false, "NotUsedName did not return within 3 s (the search for a free name does not terminate)")
 	}
 }
 
